@@ -63,7 +63,19 @@ func (c18Engine) Gen(job *Job) *Case {
 	c := &Case{Prop: "C18", Seed: job.Seed, Entry: "path"}
 	cc := &ConcCase{}
 	np := r.Range(1, 3)
+	// one case in six: every project is REJECTED (one planted defect each, whose error is the
+	// same whatever else happens) and the tasks only build - errors are located, quoted and traced
+	// at the same time by several builds (seeded change C07-u)
+	rejected := r.Chance(1, 6)
+	if rejected {
+		np = r.Range(2, 3)
+	}
 	for i := 0; i < np; i++ {
+		if rejected {
+			p, _ := genPlanted(r.Fork())
+			cc.Projects = append(cc.Projects, p)
+			continue
+		}
 		cc.Projects = append(cc.Projects, validProject(r, 30))
 	}
 	c.Project = cc.Projects[0]
@@ -72,6 +84,9 @@ func (c18Engine) Gen(job *Job) *Case {
 		nt = r.Range(4, 6)
 	}
 	scenario := []string{"independent", "shared", "mixed", "independent", "shared"}[r.Intn(5)]
+	if rejected {
+		scenario = "independent"
+	}
 	if scenario != "independent" {
 		cc.Shared = append(cc.Shared, 0)
 		if np > 1 && r.Chance(1, 3) {
@@ -358,7 +373,12 @@ func (c18Engine) Exec(c *Case, job *Job) *Result {
 			refs[vk+":build"] = "build: " + o.Text()
 			if !o.OK {
 				if len(v.banned) == 0 {
-					return false // the project itself is rejected: nothing to serialise
+					for _, pi := range cc.Shared {
+						if pi == v.proj {
+							return false // a catalog that tasks are to share, and the project is rejected: nothing to serialise
+						}
+					}
+					res.count("probe:rejected-project-built-concurrently", 1)
 				}
 				continue
 			}
